@@ -8,11 +8,13 @@
     A Rust panic site ([expect], [unwrap], [debug_assert!], unsigned subtraction, a run-time
     format width above the [u16] limit) is the result [None].
 
-    Domain (what the generators produce, see docs/notes/C12.md): no argument groups, no
-    [requires]/conditional requirements, no [flatten_help], no help
-    template/override, plain styles, names in ASCII (a short flag is one byte; "columns" reported by
-    the harness are characters). *)
-From ClapModel Require Import Base.Bytes Base.Machine Parse.Cmd Gen.HelpTables.
+    Domain (what the generators produce, see docs/notes/C12.md): no [flatten_help], no usage
+    override, plain styles, names in ASCII (a short flag is one byte; "columns" reported by
+    the harness are characters).  Round 3: argument groups and [requires] rules are part of the
+    model; the functions of command.rs that walk them ([required_graph], [unroll_arg_requires],
+    [unroll_args_in_group], [find_group], [groups_for_arg]) are the ones of the parser model
+    (Parse/Validator.v, Parse/Cmd.v), applied to the view [pcmd_of] of a help command. *)
+From ClapModel Require Import Base.Bytes Base.Machine Parse.Cmd Parse.Matcher Parse.Errors Parse.Validator Gen.HelpTables.
 From RecordUpdate Require Import RecordSet.
 Import RecordSetNotations.
 Open Scope N_scope.
@@ -52,16 +54,17 @@ Record harg := mkHArg {
   ha_defaults : list bytes; ha_hide_default : bool;
   ha_aliases : list (bytes * bool);             (* (name, visible) *)
   ha_short_aliases : list (N * bool);
-  ha_global : bool                              (* [Arg::global]: copied into every subcommand by the build *)
+  ha_global : bool;                             (* [Arg::global]: copied into every subcommand by the build *)
+  ha_requires : list (pred * bytes)             (* [Arg::requires] / [requires_if]: (predicate, id of an arg or group) *)
 }.
 #[export] Instance eta_harg : Settable _ := settable! mkHArg
   <ha_id; ha_short; ha_long; ha_action; ha_num; ha_valnames; ha_index; ha_required; ha_last; ha_req_eq;
    ha_help; ha_long_help; ha_heading; ha_disp_ord; ha_hide; ha_hide_short; ha_hide_long; ha_next_line;
    ha_hide_pv; ha_pvs; ha_env; ha_hide_env; ha_hide_env_values; ha_defaults; ha_hide_default; ha_aliases;
-   ha_short_aliases; ha_global>.
+   ha_short_aliases; ha_global; ha_requires>.
 Definition harg_new (i : bytes) (act : action) : harg :=
   mkHArg i None None act None [] None false false false None None None None false false false false false []
-         None false false [] false [] [] false.
+         None false false [] false [] [] false [].
 
 (** the four global settings the help path reads ([Command::next_line_help], [disable_help_flag],
     [disable_version_flag], [disable_help_subcommand] all go through [global_setting]) *)
@@ -81,13 +84,23 @@ Inductive hcmd := mkHCmd {
   hc_sub_required : bool;
   hc_args : list harg; hc_subs : list hcmd;
   hc_bin_name : option bytes; hc_usage_name : option bytes;
-  hc_long_help_exists : bool; hc_built : bool
+  hc_long_help_exists : bool; hc_built : bool;
+  (* round 3 *)
+  hc_groups : list group;                 (* [Command::group]: the record of the parser model *)
+  hc_negates_reqs : bool;                 (* [subcommand_negates_reqs] *)
+  hc_args_conflicts : bool;               (* [args_conflicts_with_subcommands] *)
+  hc_allow_external : bool;               (* [allow_external_subcommands] *)
+  hc_sub_value_name : option bytes;       (* [subcommand_value_name] *)
+  hc_sub_heading : option bytes;          (* [subcommand_help_heading] *)
+  hc_template : option bytes              (* [help_template] *)
 }.
 #[export] Instance eta_hcmd : Settable _ := settable! mkHCmd
   <hc_name; hc_about; hc_long_about; hc_short_flag; hc_long_flag; hc_disp_ord; hc_hide; hc_version;
-   hc_set; hc_gset; hc_sub_required; hc_args; hc_subs; hc_bin_name; hc_usage_name; hc_long_help_exists; hc_built>.
+   hc_set; hc_gset; hc_sub_required; hc_args; hc_subs; hc_bin_name; hc_usage_name; hc_long_help_exists; hc_built;
+   hc_groups; hc_negates_reqs; hc_args_conflicts; hc_allow_external; hc_sub_value_name; hc_sub_heading; hc_template>.
 Definition hcmd_new (n : bytes) : hcmd :=
-  mkHCmd n None None None None None false false hset_none hset_none false [] [] None None false false.
+  mkHCmd n None None None None None false false hset_none hset_none false [] [] None None false false
+         [] false false false None None None.
 
 Definition h_is_set (f : hset -> bool) (c : hcmd) : bool := f (hc_set c) || f (hc_gset c).
 
@@ -122,6 +135,19 @@ Fixpoint add_subs (subs : list hcmd) (ctr : N) : list hcmd :=
 Definition cmd_with (c : hcmd) (args : list harg) (subs : list hcmd) : hcmd :=
   let '(args', ctr) := add_args args 0 in
   c <| hc_args := args' |> <| hc_subs := add_subs subs ctr |>.
+
+(** [Command::next_help_heading] and the heading part of [arg_internal]
+    ([arg.help_heading.get_or_insert_with(|| self.current_help_heading.clone())]): the builder calls in
+    the order the user makes them *)
+Inductive bitem := BArg (a : harg) | BNextHeading (h : option bytes).
+Fixpoint apply_headings (items : list bitem) (current : option bytes) : list harg :=
+  match items with
+  | [] => []
+  | BArg a :: t => (if is_some (ha_heading a) then a else a <| ha_heading := current |>) :: apply_headings t current
+  | BNextHeading h :: t => apply_headings t h
+  end.
+Definition cmd_with_items (c : hcmd) (items : list bitem) (subs : list hcmd) : hcmd :=
+  cmd_with c (apply_headings items None) subs.
 
 (** ---- the build step ---- *)
 (** [Arg::_build]: the default value of the action, the number of values (the action is explicit in
@@ -203,7 +229,9 @@ Definition h_propagate_global_args (c : hcmd) : hcmd :=
   c <| hc_subs := map (fun sc => if beq (hc_name sc) s_help && autogenerated_help_subcommand then sc
                                  else fold_left h_add_global globals sc) (hc_subs c) |>.
 
-(** [_build_self] *)
+(** [_build_self].  (The step "ArgsNegateSubcommands implies SubcommandsNegateReqs" is not mirrored: both
+    readers of the two settings on this path, [write_subcommand_usage] and [_build_subcommand], test
+    their disjunction.) *)
 Definition h_build_self (c : hcmd) : hcmd :=
   if hc_built c then c else
   let c := if is_nil (hc_subs c) then c <| hc_set := (hc_set c) <| hs_no_help_sub := true |> |> else c in
@@ -261,8 +289,12 @@ Definition stylized (a : harg) (required : option bool) : option bytes :=
 Definition arg_to_string (a : harg) : option bytes := stylized a None.
 
 (** ---- usage.rs ---- *)
+(** [FlatSet<StyledStr>::insert]: items are [(id, text)], equal texts are one element *)
 Definition flatset_insert (x : bytes * bytes) (l : list (bytes * bytes)) : list (bytes * bytes) :=
   if existsb (fun y => beq (snd y) (snd x)) l then l else l ++ [x].
+(** [FlatSet<Id>::extend] *)
+Definition idset_extend (l : list id) (s : list id) : list id :=
+  fold_left (fun s x => if mem_id x s then s else s ++ [x]) l s.
 
 (** [Vec<Option<_>>]: [resize] + index assignment *)
 Fixpoint vec_set {A} (n : nat) (v : A) (l : list (option A)) : list (option A) :=
@@ -271,6 +303,13 @@ Fixpoint vec_set {A} (n : nat) (v : A) (l : list (option A)) : list (option A) :
   | O, _ :: t => Some v :: t
   | S n', [] => None :: vec_set n' v []
   | S n', x :: t => x :: vec_set n' v t
+  end.
+(** [v[n] = None] on a vector that is long enough (the caller resized it) *)
+Fixpoint vec_clear {A} (n : nat) (l : list (option A)) : list (option A) :=
+  match n, l with
+  | _, [] => []
+  | O, _ :: t => None :: t
+  | S n', x :: t => x :: vec_clear n' t
   end.
 Definition vec_get {A} (n : nat) (l : list (option A)) : option A := nth n l None.
 Fixpoint vec_flatten {A} (l : list (option A)) : list A :=
@@ -281,77 +320,172 @@ Definition has_visible_subcommands (c : hcmd) : bool :=
 Definition bin_name_fallback (c : hcmd) : bytes := opt_default (hc_name c) (hc_bin_name c).
 Definition usage_name_fallback (c : hcmd) : bytes := opt_default (bin_name_fallback c) (hc_usage_name c).
 
+(** the view of a help command that [required_graph], [unroll_arg_requires], [unroll_args_in_group],
+    [find_group] and [groups_for_arg] (Parse/Validator.v, Parse/Cmd.v) read: ids, [required],
+    [requires] of the arguments, and the groups *)
+Definition parg_of (a : harg) : arg :=
+  (arg_new (ha_id a)) <| a_required := ha_required a |> <| a_requires := ha_requires a |>.
+Definition pcmd_of (c : hcmd) : cmd :=
+  (cmd_new (hc_name c)) <| c_args := map parg_of (hc_args c) |> <| c_groups := hc_groups c |>.
+(** [Command::find] *)
+Definition h_find (c : hcmd) (i : id) : option harg := find (fun a => beq (ha_id a) i) (hc_args c).
+
 (** [needs_options_tag] *)
 Definition is_help_or_version_action (a : action) :=
   match a with AHelp | AHelpShort | AHelpLong | AVersion => true | _ => false end.
 Definition opt_is (o : option bytes) (s : bytes) := match o with Some l => beq l s | None => false end.
+(** the inner loop: the argument is a member of a group that is required *)
+Definition in_required_group (c : hcmd) (f : harg) : bool :=
+  existsb (fun grp_s => existsb (fun g => beq (g_id g) grp_s && g_required g) (hc_groups c))
+          (groups_for_arg (pcmd_of c) (ha_id f)).
 Definition needs_options_tag (c : hcmd) : bool :=
   existsb (fun f =>
              negb (opt_is (ha_long f) s_help || opt_is (ha_long f) s_version)
              && negb (is_help_or_version_action (ha_action f))
-             && negb (ha_hide f) && negb (ha_required f))
+             && negb (ha_hide f) && negb (ha_required f)
+             && negb (in_required_group c f))
           (filter (fun a => negb (ha_is_positional a)) (hc_args c)).
 
-(** the required ids, their rendered forms: items are [(id, text)].
-    [Usage::write_args(styled, &[], force_optional = false)] *)
-Definition required_args (c : hcmd) : list harg := filter ha_required (hc_args c).
+(** the closure [is_relevant] of [write_args] and of [get_required_usage_from] without a matcher:
+    only [ArgPredicate::IsPresent] rules count *)
+Definition is_relevant_help (r : pred * id) : option id :=
+  match fst r with PEquals _ => None | PIsPresent => Some (snd r) end.
 
-Fixpoint req_split (reqs : list harg) (opts : list (bytes * bytes)) (poss : list (option (bytes * bytes)))
+(** the first loop of [write_args]: [unrolled_reqs]; [None] = the worklist of
+    [unroll_arg_requires] ran out of fuel (excluded by theorem for every command) *)
+Fixpoint unrolled_reqs (pc : cmd) (graph : list id) : option (list id) :=
+  match graph with
+  | [] => Some []
+  | a :: t =>
+      dO u <- unroll_arg_requires pc is_relevant_help a;
+      dO r <- unrolled_reqs pc t;
+      Some (u ++ [a] ++ r)
+  end.
+
+(** [Arg::name_no_brackets] *)
+Definition name_no_brackets (a : harg) : bytes :=
+  match ha_valnames a with
+  | [] => ha_id a
+  | [n] => n
+  | ns => intercalate [32] (map (fun n => [60] ++ n ++ [62]) ns)
+  end.
+
+(** [Command::format_group]: [<a|b>]; a member that is not positional is written by [Display for Arg] *)
+Definition format_group (c : hcmd) (g : id) : option bytes :=
+  dO members <- unroll_args_in_group (pcmd_of c) g;
+  dO parts <- map_opt (fun x => if ha_is_positional x then Some (name_no_brackets x) else arg_to_string x)
+                      (filter_map (h_find c) members);
+  Some ([60] ++ intercalate [124] parts ++ [62]).
+
+(** the second loop of [write_args]: the groups among the requirements and their members;
+    items are [(group id, text)] *)
+Fixpoint req_groups (c : hcmd) (reqs : list id) (groups : list (bytes * bytes)) (members : list id)
+  : option (list (bytes * bytes) * list id) :=
+  match reqs with
+  | [] => Some (groups, members)
+  | req :: t =>
+      if is_some (find_group (pcmd_of c) req) then
+        dO group_members <- unroll_args_in_group (pcmd_of c) req;
+        dO elem <- format_group c req;
+        req_groups c t (flatset_insert (req, elem) groups) (idset_extend group_members members)
+      else if is_some (h_find c req) then req_groups c t groups members
+      else None                                           (* debug_assert!(self.cmd.find(req).is_some()) *)
+  end.
+
+(** the third loop: the required arguments that are not members of a listed group; items are
+    [(id, text)]; [stylized(Some(!force_optional))] *)
+Fixpoint req_split (c : hcmd) (force_optional : bool) (members : list id) (reqs : list id)
+         (opts : list (bytes * bytes)) (poss : list (option (bytes * bytes)))
   : option (list (bytes * bytes) * list (option (bytes * bytes))) :=
   match reqs with
   | [] => Some (opts, poss)
-  | a :: t =>
-      dO s <- stylized a (Some true);
-      match ha_index a with
-      | Some i => req_split t opts (vec_set (N.to_nat i) (ha_id a, s) poss)
-      | None => req_split t (flatset_insert (ha_id a, s) opts) poss
+  | req :: t =>
+      match h_find c req with
+      | Some a =>
+          if mem_id (ha_id a) members then req_split c force_optional members t opts poss else
+          dO s <- stylized a (Some (negb force_optional));
+          match ha_index a with
+          | Some i => req_split c force_optional members t opts (vec_set (N.to_nat i) (ha_id a, s) poss)
+          | None => req_split c force_optional members t (flatset_insert (ha_id a, s) opts) poss
+          end
+      | None =>
+          if is_some (find_group (pcmd_of c) req) then req_split c force_optional members t opts poss
+          else None                                       (* debug_assert!(self.cmd.find_group(req).is_some()) *)
       end
   end.
 
+(** the fourth loop: every positional that is not [hide]n and not a member of a listed group *)
 Definition s_dashdash_sp : bytes := [45; 45; 32].
-Fixpoint usage_positionals (ps : list harg) (poss : list (option (bytes * bytes)))
-  : option (list (option (bytes * bytes))) :=
+Fixpoint usage_positionals (force_optional : bool) (members : list id) (ps : list harg)
+         (poss : list (option (bytes * bytes))) : option (list (option (bytes * bytes))) :=
   match ps with
   | [] => Some poss
   | pos :: t =>
-      if ha_hide pos then usage_positionals t poss else
+      if ha_hide pos then usage_positionals force_optional members t poss else
+      if mem_id (ha_id pos) members then usage_positionals force_optional members t poss else
       dO index <- ha_index pos;                                   (* pos.get_index().unwrap() *)
       let i := N.to_nat index in
-      match vec_get i poss with
-      | Some (pid, styled) =>
-          if ha_last pos then usage_positionals t (vec_set i (pid, s_dashdash_sp ++ styled) poss)
-          else usage_positionals t poss
-      | None =>
-          dO styled <- (if ha_last pos
-                        then dO s <- stylized pos (Some true); Some ([91] ++ s_dashdash_sp ++ s ++ [93])
-                        else stylized pos (Some false));
-          usage_positionals t (vec_set i (ha_id pos, styled) poss)
-      end
+      dO poss1 <-
+        match vec_get i poss with
+        | Some (pid, styled) =>
+            Some (if ha_last pos then vec_set i (pid, s_dashdash_sp ++ styled) poss else poss)
+        | None =>
+            dO styled <- (if ha_last pos
+                          then dO s <- stylized pos (Some true); Some ([91] ++ s_dashdash_sp ++ s ++ [93])
+                          else stylized pos (Some false));
+            Some (vec_set i (ha_id pos, styled) poss)
+        end;
+      usage_positionals force_optional members t
+        (if ha_last pos && force_optional then vec_clear i poss1 else poss1)
   end.
 
-Definition usage_arg_items (c : hcmd) : option (list (bytes * bytes)) :=
-  dO sp <- req_split (required_args c) [] [];
-  dO poss <- usage_positionals (filter ha_is_positional (hc_args c)) (snd sp);
-  Some (fst sp ++ vec_flatten poss).
+(** [Usage::write_args(styled, &[], force_optional)]: the pieces, each followed by one space *)
+Definition usage_arg_items (c : hcmd) (force_optional : bool) : option (list (bytes * bytes)) :=
+  dO reqs <- unrolled_reqs (pcmd_of c) (required_graph (pcmd_of c));
+  dO gm <- req_groups c reqs [] [];
+  dO sp <- req_split c force_optional (snd gm) reqs [] [];
+  dO poss <- usage_positionals force_optional (snd gm) (filter ha_is_positional (hc_args c)) (snd sp);
+  Some ((if negb force_optional then fst sp ++ fst gm else []) ++ vec_flatten poss).
 
 Definition s_options_tag : bytes := [91; 79; 80; 84; 73; 79; 78; 83; 93].
-(** [write_arg_usage(styled, &[], true)] then [write_subcommand_usage]; every piece is followed by
-    one space, the result is [trim_end]ed by the caller: the model returns the pieces *)
-Definition usage_pieces (c : hcmd) : option (list bytes) :=
-  dO items <- usage_arg_items c;
+(** "\n       " *)
+Definition s_usage_sep : bytes := [10; 32; 32; 32; 32; 32; 32; 32].
+
+(** [write_arg_usage(styled, &[], incl_reqs)]; every piece is followed by one space *)
+Definition write_arg_usage (c : hcmd) (incl_reqs : bool) : option (list bytes) :=
+  dO items <- usage_arg_items c (negb incl_reqs);
   let name := usage_name_fallback c in
   Some ((if is_nil name then [] else [name])
         ++ (if needs_options_tag c then [s_options_tag] else [])
-        ++ map snd items
-        ++ (if has_visible_subcommands c
-            then [if hc_sub_required c then [60] ++ t_sub_value_name ++ [62] else [91] ++ t_sub_value_name ++ [93]]
-            else [])).
+        ++ map snd items).
 
-(** [get_required_usage_from(&[], None, true)]: the parent's required arguments that go into a
-    subcommand's usage name *)
+(** [write_subcommand_usage] *)
+Definition sub_value_name (c : hcmd) : bytes := opt_default t_sub_value_name (hc_sub_value_name c).
+Definition write_subcommand_usage (c : hcmd) : option (list bytes) :=
+  if has_visible_subcommands c || hc_allow_external c then
+    let value_name := sub_value_name c in
+    if hc_negates_reqs c || hc_args_conflicts c then
+      dO second <- (if hc_args_conflicts c then Some [usage_name_fallback c]
+                    else write_arg_usage c false);
+      Some ([s_usage_sep] ++ second ++ [[60] ++ value_name ++ [62]])
+    else if hc_sub_required c then Some [[60] ++ value_name ++ [62]]
+    else Some [[91] ++ value_name ++ [93]]
+  else Some [].
+
+(** [write_help_usage] without [flatten_help]: [write_arg_usage(styled, &[], true)] then
+    [write_subcommand_usage]; the result is [trim_end]ed by the caller: the model returns the pieces *)
+Definition usage_pieces (c : hcmd) : option (list bytes) :=
+  dO first <- write_arg_usage c true;
+  dO second <- write_subcommand_usage c;
+  Some (first ++ second).
+
+(** [get_required_usage_from(&[], None, true)]: the parent's required arguments and groups that go
+    into a subcommand's usage name *)
 Definition required_usage (c : hcmd) : option (list bytes) :=
-  dO sp <- req_split (required_args c) [] [];
-  Some (map snd (fst sp) ++ map snd (vec_flatten (snd sp))).
+  dO reqs <- unrolled_reqs (pcmd_of c) (required_graph (pcmd_of c));
+  dO gm <- req_groups c reqs [] [];
+  dO sp <- req_split c false (snd gm) reqs [] [];
+  Some (map snd (fst sp) ++ map snd (fst gm) ++ map snd (vec_flatten (snd sp))).
 
 (** [_build_subcommand] *)
 Definition sc_usage_names (sc : hcmd) : bytes :=
@@ -361,7 +495,7 @@ Definition sc_usage_names (sc : hcmd) : bytes :=
   if is_some (hc_long_flag sc) || is_some (hc_short_flag sc) then [123] ++ n ++ [125] else n.
 
 Definition h_build_subcommand (c : hcmd) (name : bytes) : option (option hcmd) :=
-  dO reqs <- required_usage c;
+  dO reqs <- (if negb (hc_negates_reqs c) && negb (hc_args_conflicts c) then required_usage c else Some []);
   let mid := [32] ++ concat (map (fun s => s ++ [32]) reqs) in
   match find (fun s => beq (hc_name s) name) (hc_subs c) with
   | None => Some None
